@@ -867,8 +867,36 @@ def make_shims(world):
         tree_flatten=lambda t, **k: (tree_leaves(t), ("treedef", t)),
     )
 
+    def ravel_pytree(tree):
+        """jax.flatten_util.ravel_pytree: leaves in pytree order (dict keys sorted) raveled and concatenated; the
+        second result rebuilds a tree of the same structure from such a vector."""
+        leaves = tree_leaves(tree)
+        sizes = [l.size for l in leaves]
+        shapes = [l.shape for l in leaves]
+        flat = A.concatenate([A.reshape(l, (-1,)) for l in leaves], 0) if leaves else A.as_arr([])
+
+        def unravel(vec):
+            if vec.ndim != 1 or vec.shape[0] != sum(sizes):
+                raise AbstractError("unravel: expected a vector of %d elements, got shape %r" % (sum(sizes), vec.shape))
+            pos = [0]
+            idx = [0]
+
+            def take(_leaf):
+                i = idx[0]
+                out = A.reshape(vec[pos[0]: pos[0] + sizes[i]], shapes[i])
+                pos[0] += sizes[i]
+                idx[0] += 1
+                return out
+
+            return tree_map(take, tree)
+
+        return flat, unravel
+
+    flatten_util = NS("jax.flatten_util", ravel_pytree=ravel_pytree)
+
     jax = NS(
         "jax",
+        flatten_util=flatten_util,
         named_scope=TransparentContext(),
         default_matmul_precision=TransparentContext(),
         numpy=jnp_ns,
@@ -949,6 +977,7 @@ def make_shims(world):
         "jax.random": random,
         "jax.nn": nn,
         "jax.tree_util": tree_util,
+        "jax.flatten_util": flatten_util,
         "jax.typing": jax.typing,
         "equinox": eqx,
         "functools": functools,
